@@ -2,6 +2,8 @@ import Dhlldv.Lemmas.Basic
 import Dhlldv.Lemmas.Interp
 import Dhlldv.Spec.Fracs
 import Dhlldv.Lemmas.FracsSorted
+import Dhlldv.Lemmas.FracsRange
+import Dhlldv.Lemmas.FracsMono
 import Mathlib.Tactic.Positivity
 import Mathlib.Tactic.FieldSimp
 import Mathlib.Tactic.Ring
@@ -118,17 +120,83 @@ theorem C12_fractions_strictly_increasing (natTo : Nat → ℝ) (trunc : ℝ →
     simp only
     generalize skipBelow (framework.pseudo_dlim Dp nu rhol rhos) (lo :: nx :: rest).length lo nx rest ((lo :: nx :: rest).length - 1) = sk
     obtain ⟨lo', nx', rest', pl⟩ := sk
-    simp only
-    have hd0 : ∀ (b : Bool) (X dl : ℝ), KeysNodup (if b = true then [(X, dl)] else []) := by
-      intro b X dl; cases b <;> simp [KeysNodup]
-    generalize hseg : segments _ natTo (rest'.length + 1) _ _ nx' rest' _ (0.0 : ℝ) = sg
-    have hsg : KeysNodup sg.1 := by
-      rw [← hseg]; exact segments_nodup _ _ _ _ _ _ _ _ _ (hd0 _ _ _)
-    obtain ⟨d, fs⟩ := sg
-    simp only
-    cases hr : (sortF d).reverse with
-    | nil => simp only; exact sortF_strict d hsg
-    | cons top tl =>
-      cases tl with
-      | nil => simp only; exact sortF_strict d hsg
-      | cons below tl' => simp only; exact sortF_strict _ (setF_nodup _ _ _ hsg)
+    exact afterSkip_strict natTo _ lo' nx' rest' pl n
+
+
+/-- every fraction of the discretised grading lies in [0, 1): for every well-formed input (given points strictly increasing in fraction and in
+diameter, first fraction ≥ 0, all fractions ≤ B < 1, positive diameters, the LAST given diameter not below the pseudo-liquid limit), every pipe and
+carrier and every requested count -/
+theorem C12_fractions_in_unit_interval (trunc : ℝ → Nat) (lo nx : ℝ × ℝ) (rest : List (ℝ × ℝ)) (Dp nu rhol rhos : ℝ) (n : Nat) (B : ℝ) (hB : B < 1)
+    (h : InputOK (framework.pseudo_dlim Dp nu rhol rhos) lo nx rest B) :
+    ∀ p ∈ (createFracs (fun k : Nat => (k : ℝ)) trunc (lo :: nx :: rest) Dp nu rhol rhos n).gsd, 0 ≤ p.1 ∧ p.1 < 1 := by
+  intro p hp
+  unfold createFracs at hp
+  simp only at hp
+  have hseg := skipBelow_ok (framework.pseudo_dlim Dp nu rhol rhos) B (lo :: nx :: rest).length lo nx rest ((lo :: nx :: rest).length - 1) h
+    (by simp only [List.length_cons]; omega)
+  have := afterSkip_keysIn (framework.pseudo_dlim Dp nu rhol rhos) _ _ _
+    (skipBelow (framework.pseudo_dlim Dp nu rhol rhos) (lo :: nx :: rest).length lo nx rest ((lo :: nx :: rest).length - 1)).2.2.2 n B hseg p hp
+  refine ⟨this.1, lt_of_le_of_lt this.2 ?_⟩
+  exact max_lt hB (by norm_num)
+
+/-- the diameters of the discretised grading are STRICTLY INCREASING along the fractions: for every well-formed input (as above, with the given
+fractions below 0.999 and no given diameter exactly equal to the pseudo-liquid limit), every pipe and carrier and every requested count -/
+theorem C12_diameters_strictly_increasing (trunc : ℝ → Nat) (lo nx : ℝ × ℝ) (rest : List (ℝ × ℝ)) (Dp nu rhol rhos : ℝ) (n : Nat) (B : ℝ) (hB : B < 0.999)
+    (h : InputOK (framework.pseudo_dlim Dp nu rhol rhos) lo nx rest B)
+    (hne : ∀ p ∈ nx :: rest, p.2 ≠ framework.pseudo_dlim Dp nu rhol rhos) :
+    (createFracs (fun k : Nat => (k : ℝ)) trunc (lo :: nx :: rest) Dp nu rhol rhos n).gsd.Pairwise (fun p q => p.2 < q.2) := by
+  have hstrict := C12_fractions_strictly_increasing (fun k : Nat => (k : ℝ)) trunc (lo :: nx :: rest) Dp nu rhol rhos n
+  unfold createFracs at hstrict ⊢
+  simp only at hstrict ⊢
+  have hseg := skipBelow_strict (framework.pseudo_dlim Dp nu rhol rhos) B hB (lo :: nx :: rest).length lo nx rest ((lo :: nx :: rest).length - 1) h hne
+    (by simp only [List.length_cons]; omega)
+  exact pairwise_diam _ hstrict (afterSkip_mono (framework.pseudo_dlim Dp nu rhol rhos) _ _ _ _ n B hseg)
+
+/-- the grading never goes below the pseudo-liquid limiting diameter, and it STARTS at (X, limit) whenever the log-linear distribution reaches the limit
+at a positive fraction X (X computed on the first segment that remains after the points below the limit have been discarded): that node is in the
+grading and no node lies left of it -/
+theorem C12_starts_at_limit (trunc : ℝ → Nat) (lo nx : ℝ × ℝ) (rest : List (ℝ × ℝ)) (Dp nu rhol rhos : ℝ) (n : Nat) (B : ℝ) (hB : B < 0.999)
+    (h : InputOK (framework.pseudo_dlim Dp nu rhol rhos) lo nx rest B)
+    (hne : ∀ p ∈ nx :: rest, p.2 ≠ framework.pseudo_dlim Dp nu rhol rhos) :
+    let dlim := framework.pseudo_dlim Dp nu rhol rhos
+    let sk := skipBelow dlim (lo :: nx :: rest).length lo nx rest ((lo :: nx :: rest).length - 1)
+    let X := sk.2.1.1 - (Transc.log10 sk.2.1.2 - Transc.log10 dlim) * (sk.2.1.1 - sk.1.1) / (Transc.log10 sk.2.1.2 - Transc.log10 sk.1.2)
+    let gsd := (createFracs (fun k : Nat => (k : ℝ)) trunc (lo :: nx :: rest) Dp nu rhol rhos n).gsd
+    (∀ p ∈ gsd, dlim ≤ p.2) ∧ (0 < X → (X, dlim) ∈ gsd ∧ ∀ p ∈ gsd, X ≤ p.1) := by
+  intro dlim sk X gsd
+  have hseg := skipBelow_strict dlim B hB (lo :: nx :: rest).length lo nx rest ((lo :: nx :: rest).length - 1) h hne
+    (by simp only [List.length_cons]; omega)
+  obtain ⟨_, hab, hmem, _⟩ := afterSkip_facts dlim sk.1 sk.2.1 sk.2.2.1 sk.2.2.2 n B hseg
+  have hg : gsd = (afterSkip (fun k : Nat => (k : ℝ)) dlim sk.1 sk.2.1 sk.2.2.1 sk.2.2.2 n).gsd := rfl
+  rw [← hg] at hab hmem
+  by_cases hx : X > (0.0:ℝ)
+  · have hd : decide (X > (0.0:ℝ)) = true := decide_eq_true hx
+    rw [if_pos hd, if_pos hd] at hab
+    exact ⟨fun p hp => (hab p hp).2, fun _ => ⟨hmem hd, fun p hp => (hab p hp).1⟩⟩
+  · have hd : ¬ decide (X > (0.0:ℝ)) = true := by simpa using hx
+    rw [if_neg hd, if_neg hd] at hab
+    have hX0 : X ≤ 0 := by have := not_lt.1 hx; rwa [sci_zero] at this
+    have hge := dmin_ge_dlim hseg hX0
+    refine ⟨fun p hp => le_trans hge (hab p hp).2, fun hpos => absurd hpos (not_lt.2 hX0)⟩
+
+/-- every given point from the upper end of the first remaining segment onwards (all of them lie at or above the limit) is reproduced exactly: it is a
+node of the discretised grading -/
+theorem C12_given_points_are_nodes (trunc : ℝ → Nat) (lo nx : ℝ × ℝ) (rest : List (ℝ × ℝ)) (Dp nu rhol rhos : ℝ) (n : Nat) (B : ℝ) (hB : B < 0.999)
+    (h : InputOK (framework.pseudo_dlim Dp nu rhol rhos) lo nx rest B)
+    (hne : ∀ p ∈ nx :: rest, p.2 ≠ framework.pseudo_dlim Dp nu rhol rhos) :
+    let dlim := framework.pseudo_dlim Dp nu rhol rhos
+    let sk := skipBelow dlim (lo :: nx :: rest).length lo nx rest ((lo :: nx :: rest).length - 1)
+    ∀ q ∈ sk.2.1 :: sk.2.2.1, q ∈ (createFracs (fun k : Nat => (k : ℝ)) trunc (lo :: nx :: rest) Dp nu rhol rhos n).gsd := by
+  intro dlim sk
+  have hseg := skipBelow_strict dlim B hB (lo :: nx :: rest).length lo nx rest ((lo :: nx :: rest).length - 1) h hne
+    (by simp only [List.length_cons]; omega)
+  exact (afterSkip_facts dlim sk.1 sk.2.1 sk.2.2.1 sk.2.2.2 n B hseg).2.2.2
+
+/-! Non-vacuity: a D15/D50/D85 grading above a limit of 0.1 mm meets `InputOK` -/
+example : InputOK (1e-4 : ℝ) (0.15, 2e-4) (0.5, 4e-4) [(0.85, 8e-4)] 0.85 := by
+  refine ⟨?_, by norm_num, by norm_num, ?_, by norm_num, ?_⟩
+  · simp only [List.isChain_cons_cons, List.isChain_singleton, and_true]; norm_num
+  · intro p hp
+    simp only [List.mem_cons, List.not_mem_nil, or_false] at hp
+    rcases hp with rfl | rfl <;> norm_num
+  · simp only [List.getLast_cons_cons, List.getLast_singleton]; norm_num
